@@ -1,10 +1,5 @@
 UNITS = {"c02node": dict(pkg="./pkg/controller/multi-ip/node", tags="default_build", shrinktime="40s")}
 
-# candidate findings reported to the lead; until they are entered into known_findings.json
-# (or repaired) their guards are switched on through this variable (see c08Known in
-# zz_verif_c02_engine_test.go). Remove an id here once it is listed or fixed.
-_PENDING = {}
-
 _assume = [
     "cloud simulated at the pkg/controller.Interface level (zz_verif/cloudctl): ECS assign calls answer (nil, err) on any error, Detach of a missing interface and UnAssign of missing addresses succeed, "
     "DescribeNetworkInterfaces ANDs its filters (an interface that is not attached does not match an instance-id filter), addresses are never reused; asynchronous status changes advance per poll, the simulator never sleeps",
@@ -27,10 +22,8 @@ PROPS = {
         level_text="randomised exploration; every persisted record of every explored history satisfies: one owner per address and no transfer from a live pod, at most one IPv4 and one IPv6 per pod on one interface, "
                    "fresh bindings only on Valid addresses of InUse interfaces of the right (RDMA / non-RDMA) kind, re-adoption onto exactly the reported address, bindings only for existing pods served by the node IPAM; not exhaustive",
         level_note="map-iteration order inside assignIPFromLocalPool is not controlled (the oracle accepts any valid choice); 'addresses the daemon reads back' is covered through the record only; "
-                   "two candidate defects are guarded as listed/pending findings and witnessed deterministically",
-        tests=[dict(unit="c02node", test="TestVerifC02Assign", quick=80000, thorough=2000000, env=_PENDING),
-               dict(unit="c02node", test="TestVerifC02Loop", quick=6000, thorough=150000, timeout_quick=900, env=_PENDING),
-               dict(unit="c02node", test="TestVerifC02KnownV4NotOnV6ENI", quick=1, thorough=1, shards=1, env=_PENDING),
-               dict(unit="c02node", test="TestVerifC02KnownRollbackUnbindsExistingV4", quick=1, thorough=1, shards=1, env=_PENDING)],
+                   "two defects found by this check (IPv4 not following an existing IPv6 binding's interface; roll-back unbinding a pre-existing IPv4) were repaired in /repo, no finding is open",
+        tests=[dict(unit="c02node", test="TestVerifC02Assign", quick=80000, thorough=2000000),
+               dict(unit="c02node", test="TestVerifC02Loop", quick=6000, thorough=150000, timeout_quick=900)],
     ),
 }
